@@ -14,6 +14,10 @@
 //!   op new | drop <c> | open <t> <d 0=Dispatch::none, c+1> | close <t> <k> | setglobal <t> <c>
 //!      | emit <t> <cs> | probe <t> <cs> | getdefault <t> [cs] | getcurrent <t> | rebuild | flip <c>
 //!      | panic <t> <d,d,..>      (with_default nesting, observe the default innermost, panic, catch_unwind)
+//!      | emitcb <t> <cs> <k> <cs2>   emit at cs; the callback (event / new_span) of the collector that receives it does:
+//!                                    k = 0 nothing, 1 panic, 2 emit at cs2 from inside the callback then return, 3 emit at cs2 then
+//!                                    panic.  The panic unwinds through tracing's dispatch code and is caught here (catch_unwind).
+//!                                    `del` lists the outer delivery first, then what the nested emission delivered.
 //! Threads are real OS threads, created at first use, driven one op at a time by the controller (main).
 //! Encodings equal Dispatch/Model.v: dispatcher 0 = none, c+1 = collector c; interest 0/1/2; level rank 0..5.
 use std::io::{Read, Write};
@@ -39,6 +43,21 @@ const LEVELS: [Level; 5] = [Level::ERROR, Level::WARN, Level::INFO, Level::DEBUG
 
 /// Deliveries: (collector id, 0 = new_span / 1 = event, level rank, target index)
 static LOG: Mutex<Vec<(usize, u8, usize, usize)>> = Mutex::new(Vec::new());
+/// Armed by `emitcb`: what the NEXT event / new_span callback (of whichever collector receives the emission) does.
+static NEXT: Mutex<Option<(u8, usize)>> = Mutex::new(None);
+
+/// Runs inside a collector callback, after the delivery was logged; no harness lock is held while it emits or panics.
+fn callback_hook() {
+    let armed = NEXT.lock().unwrap().take();
+    if let Some((k, cs2)) = armed {
+        if k >= 2 {
+            let _ = hit(cs2);
+        }
+        if k == 1 || k == 3 {
+            panic!("collector callback panics");
+        }
+    }
+}
 
 fn level_rank(l: &Level) -> usize {
     LEVELS.iter().position(|x| x == l).unwrap() + 1
@@ -96,11 +115,13 @@ impl Collect for Rec {
     fn new_span(&self, a: &span::Attributes<'_>) -> span::Id {
         let m = a.metadata();
         LOG.lock().unwrap().push((self.id, 0, level_rank(m.level()), target_index(m.target())));
+        callback_hook();
         span::Id::from_u64(1)
     }
     fn event(&self, e: &Event<'_>) {
         let m = e.metadata();
         LOG.lock().unwrap().push((self.id, 1, level_rank(m.level()), target_index(m.target())));
+        callback_hook();
     }
     fn record(&self, _: &span::Id, _: &span::Record<'_>) {}
     fn record_follows_from(&self, _: &span::Id, _: &span::Id) {}
@@ -221,6 +242,7 @@ enum Cmd {
     Close(usize),
     SetGlobal(Dispatch),
     Hit(usize),
+    HitCb(usize, u8, usize),
     GetDefault(Option<usize>),
     GetCurrent,
     Panic(Vec<Dispatch>),
@@ -263,6 +285,12 @@ fn worker(rx: mpsc::Receiver<Cmd>, tx: mpsc::Sender<String>) {
                 Ok(None) => String::new(),
                 Err(_) => "\"panic\":1".to_string(),
             },
+            Cmd::HitCb(i, k, cs2) => {
+                *NEXT.lock().unwrap() = Some((k, cs2));
+                let r = catch_unwind(|| hit(i));
+                *NEXT.lock().unwrap() = None;
+                format!("\"panic\":{}", r.is_err() as u8)
+            }
             Cmd::GetDefault(cs) => {
                 let (id, own) = dispatch::get_default(|d| {
                     let own = match (cs, d.downcast_ref::<Rec>()) {
@@ -392,6 +420,7 @@ fn run_one(text: &str) {
                 None => body = "\"bad\":1".to_string(),
             },
             "emit" | "probe" => body = send(&mut workers, num(w[2]), Cmd::Hit(num(w[3]))),
+            "emitcb" => body = send(&mut workers, num(w[2]), Cmd::HitCb(num(w[3]), num(w[4]) as u8, num(w[5]))),
             "getdefault" => body = send(&mut workers, num(w[2]), Cmd::GetDefault(w.get(3).map(|s| num(s)))),
             "getcurrent" => body = send(&mut workers, num(w[2]), Cmd::GetCurrent),
             "panic" => {
